@@ -95,6 +95,24 @@ class Arr(Model):
     def __setitem__(self, idx, v):
         self.log.append((self, idx, ("=", v), self.ctx.get("point")))
 
+    def reshape(self, *shape, **k):
+        """a row-major view with another shape: updates recorded with flat indices are read back in the new shape"""
+        if len(shape) == 1 and isinstance(shape[0], (tuple, list)):
+            shape = tuple(shape[0])
+        n_old = 1
+        for d in self.shape:
+            n_old *= d
+        n_new = 1
+        for d in shape:
+            n_new *= d
+        if n_old != n_new:
+            raise Unsupported("reshape %r -> %r" % (self.shape, shape))
+        r = Arr(self.name, shape, self.log, self.ctx)
+        r.reduced = self.reduced
+        r.base = getattr(self, "base", self)
+        r.flat_from = self.shape
+        return r
+
     def sum(self, axis=None):
         if axis == 0:
             r = Arr(self.name, self.shape[1:], self.log, self.ctx)
@@ -322,6 +340,24 @@ def r2_kernel_index_logic(run, tree):
             run.ob(KERNEL + "::array-shapes", ok, fi.where(), "returned accumulators have shapes %s and %s (required (layers, ny, nx) and (ny, nx))" % (rv.shape, rc.shape),
                    "a non-square resolution indexes out of bounds or transposes the histogram")
         base_c, base_v = getattr(rc, "base", rc), getattr(rv, "base", rv)
+
+        def unflat(view, idx):
+            """an index recorded on the flat accumulator -> the index in the returned (reshaped) array"""
+            old = getattr(view, "flat_from", None)
+            if old is None:
+                return idx
+            idx = idx if isinstance(idx, tuple) else (idx,)
+            lead = idx[:-1]
+            f = idx[-1]
+            if not isinstance(f, int):
+                return idx
+            tail = view.shape[len(lead):]
+            out = []
+            for d in reversed(tail):
+                out.append(f % d)
+                f //= d
+            return tuple(lead) + tuple(reversed(out))
+        log = [(arr, unflat(rc if arr is base_c else rv, idx) if arr in (base_c, base_v) else idx, v, pt) for arr, idx, v, pt in log]
         for i, (label, px, py, want) in enumerate(cases):
             construct = "%s::point[%s]%s" % (KERNEL, label, tag)
             cu = [(idx, v) for arr, idx, v, pt in log if arr is base_c and pt == i]
@@ -361,4 +397,10 @@ def r6_r7_layers(run, tree):
     hf.check_hist2d_history(run, tree)
 
 
-RULES = [r1_no_shared_rmw, r2_kernel_index_logic, r5_limits, r6_r7_layers]
+def r_norm_corners(run, tree):
+    run.rule("C05.R7", "the coordinates and layer values of Vector inputs are their norms: a point whose vector is exactly zero has the finite coordinate 0 and is binned (shared with C09.R9)", "D7 fold of Vector.norm over small concrete vectors", "", floor=4)
+    from . import quantity_stack as qs
+    qs.check_norm_corner_cases(run, tree)
+
+
+RULES = [r1_no_shared_rmw, r2_kernel_index_logic, r5_limits, r6_r7_layers, r_norm_corners]
